@@ -196,6 +196,22 @@ def c02_3(R):
             R.ok("timer-checked:" + f, ",".join(sorted({owner_fn(b).split("::")[-1] for b, _ in exps})), "%d expired() sites" % len(exps))
     # the min over all five is what is returned on the not-transport-pending path
     R.floor("timers polled in next_timer_to_poll", len(polled), 5)
+    maxes = [t for t in ntp.calls() if any((t.resolved or "").endswith(x) or (t.callee or "").endswith(x) for x in ("Iterator::max", "Ord::max", "Iterator::max_by", "Iterator::max_by_key", "Iterator::last"))]
+    mins = [t for t in ntp.calls() if any((t.callee or "").endswith(x) for x in ("Iterator::min", "Ord::min", "Iterator::min_by", "Iterator::min_by_key", "PartialOrd::lt", "PartialOrd::le", "PartialOrd::gt", "PartialOrd::ge"))]
+    if mins and not maxes:
+        R.ok("deadline=earliest", ntp.name, "the deadlines are combined by a minimum")
+    else:
+        R.fail([ntp.name, "deadline-not-the-earliest", short_callee(maxes[0].resolved) if maxes else "no-min"], "next_timer_to_poll does not return the earliest deadline: the task sleeps through the delayed-ACK / retransmission timers", where=(maxes[0].where() if maxes else ntp.where()), instance="deadline=earliest")
+    # ... and that path is the one taken when the transport is writable
+    wrong = []
+    for t in ntp.calls():
+        if call_matches(t, ("stream_dispatch::Timer::poll_at",)) and trace(ntp, t.args[0]).last_field in (tf - {"Timers.remote_inactivity_timer"} if isinstance(tf, set) else [x for x in tf if x != "Timers.remote_inactivity_timer"]):
+            if any(d == "field:ThisPoll.transport_pending=true" for c, truth, d, *_ in controlling(ntp, t.bb)):
+                wrong.append(t)
+    if not wrong:
+        R.ok("deadline-path", ntp.name, "all timers are consulted when the transport is not pending")
+    else:
+        R.fail([ntp.name, "timers-only-under(transport_pending)"], "the protocol timers are consulted only while the transport is blocked: in the normal case only the inactivity timer can wake the task", where=wrong[0].where(), instance="deadline-path")
 
 
 def send_data_closures(R):
@@ -371,6 +387,18 @@ def c02_6(R):
         else:
             R.fail([poll.name, "stage-order", prev[0] + "<" + name], "stage %s is no longer dominated by stage %s (stages reordered)" % (name, prev[0]), where=poll.where(), instance="stage:" + name)
         prev = (name, bbs)
+    # every iteration starts from a clean slate: transport_pending := false (otherwise one would-block send silences the
+    # connection for good) and now := env.now() (timers are compared against this value)
+    first = stage_bbs[0][1] if stage_bbs and stage_bbs[0][1] else []
+    for what, blocks in (("transport_pending = false", {s_.bb for s_ in poll.stmts() if written_field(poll, s_) == "ThisPoll.transport_pending" and s_.rv.kind == "use" and s_.rv.ops[0].kind == "const" and s_.rv.ops[0].scalar == 0}),
+                         ("now = env.now()", {s_.bb for s_ in poll.stmts() if written_field(poll, s_) == "ThisPoll.now" and (lambda t_: t_.kind == "call" and (t_.root[1].resolved or "").endswith("::now"))(trace(poll, s_.rv.ops[0]))})):
+        # on every path around the loop (back edge -> first stage) as well as from entry
+        heads = {0} | {v for (u, v) in poll.back_edges()}
+        bad = [h for h in heads if first and any(f in poll.reachable(h, removed_blocks=blocks) for f in first) and h not in blocks]
+        if blocks and first and not bad:
+            R.ok("iteration-reset", what, "on every path to the first stage of an iteration")
+        else:
+            R.fail([poll.name, "iteration-without", what], "a poll iteration can start without `%s`: %s" % (what, "after one would-block send nothing is ever sent again" if "pending" in what else "timers are compared with a stale clock"), where=poll.where(), instance="iteration-reset")
     # the other Pending exits: only under transport_pending = true
     tp_edges = set()
     for blk in poll.blocks:
